@@ -54,7 +54,9 @@ _MISSING = object()
 
 
 class RegExec:
-    def __init__(self, world, folder=None, record_models=None):
+    def __init__(self, world, folder=None, record_models=None,
+                 record_methods=None):
+        self.record_methods = record_methods or {}
         self.world = world
         self.folder = folder or Folder(world)
         self.objs = {}            # ClassInfo -> ClsObj
@@ -440,6 +442,9 @@ class RegExec:
             if name == "name":
                 return base.name
         if isinstance(base, Record):
+            if (base.kind, name) in self.record_methods:
+                return ("pyfunc", self.record_methods[(base.kind, name)],
+                        base)
             if hasattr(base, name):
                 return getattr(base, name)
             raise AnalysisError("registration: record %s has no %s"
@@ -558,6 +563,8 @@ class RegExec:
                 return self.call(oc, fn, args, kwargs)
             if fv[0] == "builtin":
                 return _BUILTINS[fv[1]](*args, **kwargs)
+            if fv[0] == "pyfunc":
+                return fv[1](fv[2], *args, **kwargs)
         if isinstance(fv, ClsObj):
             return self.instantiate(fv, args, kwargs, owner)
         raise AnalysisError("registration code: cannot call %s in %s"
